@@ -1928,6 +1928,23 @@ def c04_corruption(seed, tier):
     W = Work("c04")
     try:
         pin_with_full_seeds(W, R, rng)
+        # a retry over what a failed attempt (or an older version) left at the output path, with --force-create: first from an
+        # archive with a flipped payload byte, then from the intact one with trailing garbage - success only with the source
+        zsrc = rng.randbytes(600) + bytes(1200) + rng.randbytes(300)
+        for comp_ in ("none", "brotli"):
+            zarch, zapath, zcfg, zhl = make_archive(W, rng, zsrc, cfg=(["--fixed-size", "300"], "F:300"), compression=comp_)
+            zhs = pyfmt_header_size(zarch)
+            bad = bytearray(zarch)
+            bad[zhs + rng.randrange(0, max(1, len(zarch) - zhs))] ^= 0x20
+            outp = W.write(rng.randbytes(len(zsrc) + rng.randrange(0, 900)), ".out")
+            for what, data in (("flipped payload byte", bytes(bad)), ("trailing garbage", zarch + rng.randbytes(50))):
+                cls, rc, so, se = clone_cli(W, W.write(data, ".cba"), outp, force=True)
+                R.stat("retries_over_a_leftover_output")
+                if cls not in ("ok", "err"):
+                    R.fail("clone-%s" % cls, "cli-clone --force-create over a leftover output, archive with %s (%s)" % (what, comp_))
+                elif cls == "ok" and read_file(outp) != zsrc:
+                    R.fail("success-with-wrong-output", "cli-clone --force-create over a leftover output, archive with %s (%s), source with all-zero chunks" % (what, comp_))
+            os.unlink(outp)
         n = 24 if tier == "thorough" else 4
         for i in range(n):
             src = gen_source(rng, 1200)
